@@ -155,6 +155,11 @@ def programs():
             add(f"const_const_{n}_{tname}", "const", f"const C: Buf<{ty}> = Buf::new();\nfn f() -> usize {{ C.len() }}\n", "accept", n=n)
             add(f"const_fn_{n}_{tname}", "const", f"const fn mk() -> Buf<{ty}> {{ Buf::new() }}\nstatic S: Buf<{ty}> = mk();\n", "accept", n=n)
             add(f"const_inline_repeat_{n}_{tname}", "const", f"fn f() -> [Buf<{ty}>; 3] {{ [const {{ Buf::<{ty}>::new() }}; 3] }}\n", "accept", n=n)
+    # const evaluation must not take time proportional to the capacity (rustc's long_running_const_eval lint is an error)
+    for n in (1 << 20, 3_000_000):
+        for tname, ty in (("u8", "u8"), ("string", "String"), ("unit", "()")):
+            add(f"const_static_{n}_{tname}", "const", f"static S: Buf<{ty}> = Buf::new();\npub fn f() -> usize {{ S.len() }}\n", "accept", n=n)
+            add(f"const_const_{n}_{tname}", "const", f"const C: Buf<{ty}> = Buf::new();\npub static S2: Buf<{ty}> = C;\n", "accept", n=n)
     # new() / default() / collect() must also be usable in ordinary code for every element type and capacity
     for n in (0, 1, 4, 1000):
         for tname, ty in (("unit", "()"), ("zst_struct", "Zst"), ("u8", "u8"), ("big", "[u64; 64]")):
